@@ -101,6 +101,23 @@ theorem kdt_matched_iff (D : List (List Dist)) (inds : List (List Nat)) (ny K : 
   · rintro ⟨hx, c, hm, hc, hv, hlt⟩
     exact mem_zip_of_mark hinv hx hm hc hv hlt
 
+/-- For a well-formed query result the extra test `winner[r] < y.shape[0]` of the code (a COLUMN number compared
+    with the number of rows of `y`) never rejects anything — real neighbours can only sit in the first `ny`
+    columns — so a row is returned exactly when it holds a mark on a real row of `y`, and omitted otherwise. -/
+theorem kdt_matched_iff_wf {D : List (List Dist)} {inds : List (List Nat)} {ny K : Nat} {bound : Dist}
+    (h : WFQuery D inds ny K bound) (x y : Nat) :
+    (x, y) ∈ (kdtMatch D inds ny K).1.zip (kdtMatch D inds ny K).2 ↔
+      x < inds.length ∧ ∃ c, M (runCols uniqueInds inds.length (indsAt inds) (dAt D) K).cols c x = true ∧
+        indsAt inds x c = y ∧ y < ny := by
+  rw [kdt_matched_iff]
+  constructor
+  · rintro ⟨hx, c, hm, _, hv, hy⟩
+    exact ⟨hx, c, hm, hv, hy⟩
+  · rintro ⟨hx, c, hm, hv, hy⟩
+    have hc := M_lt hm
+    rw [runCols_length] at hc
+    exact ⟨hx, c, hm, col_lt_ny_of_real h hx hc (by rw [hv]; exact hy), hv, hy⟩
+
 /-- Greedy specification of the marker matrix: row `r` is marked in column `c` exactly when it is the
     closest claimant of its `c`-th neighbour (smallest distance among the rows whose `c`-th neighbour is the
     same candidate, first such row on ties), that candidate is under no mark of an earlier column, and `r`
